@@ -63,14 +63,16 @@ def main():
             for _ in range(nresp):
                 inputs.append((group, respell(s, rng)))
     # mixtures / molecules with one group the rewrite refuses and several it accepts
-    refused = ["C=C[O-]", "CC([O-])O", "CC(O)(OC)C", "[O-]C(C)=CC", "CC(=C)O[Na]", "OC1(OC)CCCC1"]
+    refused = ["C=C[O-]", "CC([O-])O", "CC(O)(OC)C", "[O-]C(C)=CC", "CC(=C)O[Na]", "OC1(OC)CCCC1",
+               "C=C([O-])O", "CC=C([O-])O", "OC(=C)[O-]", "C=C(O)S"]
     accepted = ["C=CO", "CC(O)O", "CC(O)=C", "OC1=CCCC1", "CC(O)(O)C", "OC(=C)c1ccccc1"]
     for r_ in refused:
         for k in range(len(accepted)):
             a, b = accepted[k], accepted[(k + 2) % len(accepted)]
             inputs.append(("multi", ".".join([r_, a, b])))
             inputs.append(("multi", ".".join([a, r_, b, a])))
-    inputs += [("multi", x) for x in ("[O-]C=CC(O)O.C=CO", "[O-]C=CCC(O)=CCC(O)=C", "[O-]C=CCC(O)(O)CC(O)=C",
+    inputs += [("multi", x) for x in ("C=C([O-])O.C=CO", "CC=C([O-])O.CC=CO", "C=C(O)C(C=C([O-])O)C=C(O)S", "C=CO.C=C([O-])O.C=CO",
+                                      "[O-]C=CC(O)O.C=CO", "[O-]C=CCC(O)=CCC(O)=C", "[O-]C=CCC(O)(O)CC(O)=C",
                                       "C=C[O-].C=CO.C=CO", "CC([O-])O.CC(O)O.CC(O)O", "OC=CCC(O)=CCC(O)=C",
                                       "OC(O)CC(O)(O)CC(O)O", "C=C(O)CC(O)(OC)CC(O)=C")]
     # atoms with an explicit hydrogen count / isotopes at the rewritten positions, metal-bearing oxygens
